@@ -476,6 +476,10 @@ class Ro:
         memo = getattr(g.w, "ro_recent", None)
         if memo and rng.random() < 0.35:
             op = dict(rng.choice(memo))
+            if rng.random() < 0.5:
+                # ask an earlier question about the node that was looked at last
+                same = [m for m in memo if m["n"] == memo[-1]["n"]]
+                op = dict(rng.choice(same))
             if all(op[k] < len(own) for k in ("n", "m") if k in op):
                 return op
         f = rng.choice(self.TREE + self.NODE)
